@@ -573,7 +573,7 @@ def e_num_threads(ctx, s):
 REVIEWED = [
     (r"TagState::inject_tags$", r"^call:" + re.escape(STR_INDEX), e_inject_slices),
     (r"TagState::inject_tags$", r"^call:std::panicking::panic", e_assert_no_newline),
-    (r"<txtpp::core::execute::pp::directive::Directive as std::fmt::Display>::fmt$", r"^call:" + re.escape(VEC_INDEX), e_args0),
+    (r"(::|<)Directive as std::fmt::Display>::fmt$", r"^call:" + re.escape(VEC_INDEX), e_args0),
     (r"DepManager::notify_finish$", r"^call:std::option::Option::<T>::unwrap$", e_notify_unwrap),
     (r"execute_in_collect_deps_mode$", r"^call:std::panicking::panic", e_unreachable_collect),
     (r"::\{closure#\d+\}$", r"^call:std::result::Result::<T, E>::expect$", e_send_expect),
